@@ -394,24 +394,47 @@ def _ownership_transfer(ctx, rc, F, p):
             F.qualname, sorted(owners)))
     owner = owners.pop()
 
+    # names that carry the reservation count / its presence
+    cnames = set()
+    grew = True
+    while grew:
+        grew = False
+        for n in ast.walk(F.node):
+            if isinstance(n, ast.Assign) and any(
+                    (isinstance(x, ast.Attribute) and x.attr == cattr) or
+                    (isinstance(x, ast.Name) and x.id in cnames)
+                    for x in ast.walk(n.value)):
+                for t in n.targets:
+                    if isinstance(t, ast.Name) and t.id not in cnames:
+                        cnames.add(t.id)
+                        grew = True
+
+    def count_test(t):
+        return any((isinstance(x, ast.Attribute) and x.attr == cattr) or
+                   (isinstance(x, ast.Name) and x.id in cnames)
+                   for x in ast.walk(t))
+
     def stops(body):
         """Statement lists inside the walk loop (not inside inner loops)
-        that end the walk."""
+        that end the walk because of the reservation count (leaving the loop
+        because the root was reached is the loop's own termination)."""
         out = []
 
-        def visit(stmts, in_inner):
+        def visit(stmts, in_inner, counted=False):
             for st in stmts:
                 if isinstance(st, (ast.Break, ast.Return)) and not in_inner:
-                    out.append(stmts)
+                    if counted:
+                        out.append(stmts)
                 elif isinstance(st, ast.If):
-                    visit(st.body, in_inner)
-                    visit(st.orelse, in_inner)
+                    c2 = counted or count_test(st.test)
+                    visit(st.body, in_inner, c2)
+                    visit(st.orelse, in_inner, c2)
                 elif isinstance(st, (ast.For, ast.While)):
-                    visit(st.body, True)
+                    visit(st.body, True, counted)
                 elif isinstance(st, ast.With):
-                    visit(st.body, in_inner)
+                    visit(st.body, in_inner, counted)
                 elif isinstance(st, ast.Try):
-                    visit(st.body, in_inner)
+                    visit(st.body, in_inner, counted)
         visit(body, False)
         return out
     early = stops(loop.body)
@@ -557,9 +580,12 @@ def r9_9(ctx, rc):
     duplicate issued from another thread is rejected atomically and cannot
     overwrite the owner's record."""
     from .c08 import r8_2, r8_2b, r8_3
+    from .c10 import r10_2
     r8_2(ctx, rc)
     r8_2b(ctx, rc)
     r8_3(ctx, rc)
+    # a failed output is removed before its record is published (R10.2)
+    r10_2(ctx, rc)
 
 
 RULES = [
